@@ -9,7 +9,7 @@ META = {
     "bounds": {"quick": "every geometry depth 1..32 x message size 1..16 x slack 0..size-1 (all symbolic at once); ANY valid sequential state "
                         "(window position, held, claimed, which claimed are sent); one API call, any of claim / send of any claimed unsent / receive / "
                         "release of the oldest held. Inductive: covers sequential histories of any length",
-               "thorough": "as quick with message size 1..64, plus all 3-call sequences from any valid state"},
+               "thorough": "as quick with message size 1..64, plus all 2-call sequences from any valid state"},
     "outside": ["message sizes above 64 (only used as a multiplier for the slot address)", "concurrent use (C04)"],
     "assumptions": ["representation invariant of a sequential queue: receivep = oldest claimed slot, sendp = receivep + claimed (mod depth), "
                     "num_free = depth - held - claimed, full_flags = sent slots within the claimed window; re-established after every step (asserted), "
@@ -22,7 +22,7 @@ def queries(tier, kf):
     mm = 16 if tier == "quick" else 64
     qs = [Query("c10-step", "c10.c", "h_step", units=U, defines={"MAXMSG": mm, "NSTEPS": 1}, unwind=34, tolerate=TOL, timeout=900)]
     if tier == "thorough":
-        qs.append(Query("c10-3steps", "c10.c", "h_step", units=U, defines={"MAXMSG": 16, "NSTEPS": 3}, unwind=34, tolerate=TOL, timeout=2400, mem_gb=12))
+        qs.append(Query("c10-2steps", "c10.c", "h_step", units=U, defines={"MAXMSG": 16, "NSTEPS": 2}, unwind=34, tolerate=TOL, timeout=2400, mem_gb=12))
     cans = [("wrap", "newsendp = (sendp >= (mq->queue_len-1) ? 0 : sendp+1);", "newsendp = (sendp > (mq->queue_len-1) ? 0 : sendp+1);"),
             ("rwrap", "(receivep >= (unsigned int)(mq->queue_len - 1) ? 0 : receivep + 1);", "(receivep >= (unsigned int)(mq->queue_len) ? 0 : receivep + 1);"),
             ("undo", "\t\tatomic_fetch_add(&mq->num_free, 1);\n\t\treturn NULL;", "\t\treturn NULL;"),
